@@ -37,7 +37,9 @@ impl Property for C10 {
     }
 
     fn generate(&self, rng: &mut Rng, thorough: bool) -> J {
-        let exec = rng.chance(15, 100);
+        let exec = rng.chance(20, 100);
+        // a quarter of the whole-executor runs use an aggregate statement (one table refresh per delivered line)
+        let exec_agg = exec && rng.chance(1, 4);
         let head = rng.chance(1, 2);
         let alphabet = *rng.pick(&[Alphabet::Ascii, Alphabet::Utf8, Alphabet::Utf8, Alphabet::CrBlank, Alphabet::Odd]);
         // size regime: one line beyond every buffer in the system (64 KiB .. 1.2 MiB), appended in pieces
@@ -84,7 +86,7 @@ impl Property for C10 {
         let read_mode = gen::gen_read_mode(rng);
         json!({
             "prop": "C10",
-            "mode": if exec { "exec" } else { "iter" },
+            "mode": if exec_agg { "exec_agg" } else if exec { "exec" } else { "iter" },
             "head": head,
             "cap": cap,
             "initial": enc(&initial),
@@ -106,7 +108,9 @@ impl Property for C10 {
         array_field(case, "cuts", &mut out);
         steps_field(case, "steps", &mut out);
         set_field(case, "read_mode", json!("bulk"), &mut out);
-        set_field(case, "mode", json!("iter"), &mut out);
+        if jstr(case, "mode") == "exec" {
+            set_field(case, "mode", json!("iter"), &mut out);
+        }
         bool_field(case, "head", true, &mut out);
         num_field(case, "cap", 8192, &mut out);
         num_field(case, "idle", 1, &mut out);
@@ -124,13 +128,14 @@ impl Property for C10 {
             out.invalid = Some("content is not valid UTF-8".to_owned());
             return out;
         }
-        let exec = jstr(case, "mode") == "exec";
+        let exec_agg = jstr(case, "mode") == "exec_agg";
+        let exec = jstr(case, "mode") == "exec" || exec_agg;
         let head = jbool(case, "head");
         let cap = jusize(case, "cap", 8192).max(1);
         let cuts = jusizes(case, "cuts");
         let chunks = gen::cut_chunks(&append, &cuts);
         let mode = if exec { Mode::FollowExec { head } } else { Mode::FollowIter { head, cap } };
-        let mut spec = WorldSpec::new(RAW_DEFS, "SELECT input FROM raw", mode);
+        let mut spec = WorldSpec::new(RAW_DEFS, if exec_agg { "SELECT x, COUNT(*) AS c FROM raw GROUP BY x" } else { "SELECT input FROM raw" }, mode);
         spec.files.push((FOLLOW_PATH.to_owned(), initial.clone()));
         spec.appends = chunks.clone();
         spec.steps = steps_from_json(case, "steps");
@@ -166,6 +171,68 @@ impl Property for C10 {
         }
 
         let content = follow::final_content(&initial, &chunks, &res.log);
+        if exec_agg {
+            // every table on screen must be the table of a prefix of the stream's complete lines (prefixes never
+            // go backwards) and the last one the table of all of them: a tail delivered early, a split, merged,
+            // lost or duplicated line changes some group's count
+            let tables = super::c11::refreshes(&res.stdout);
+            if follow::start_candidates(&res.log, head).iter().any(|x0| *x0 < content.len() && content[*x0] & 0xC0 == 0x80) {
+                // attached inside a multi-byte character: the first (partial) line cannot be rendered character
+                // for character and would name its own group; judged in the non-aggregate modes only
+                out.probe("exec_aggregate_skipped_midchar_start", 1);
+                return out;
+            }
+            let mut verdict: Option<String> = None;
+            let mut ok_any = false;
+            for x0 in follow::start_candidates(&res.log, head) {
+                let lines = complete_lines(&content[x0.min(content.len())..]);
+                let render = |k: usize| -> Vec<String> {
+                    let mut groups: std::collections::BTreeMap<Vec<u8>, usize> = std::collections::BTreeMap::new();
+                    for l in &lines[..k] {
+                        *groups.entry(l.clone()).or_insert(0) += 1;
+                    }
+                    groups.iter().map(|(g, c)| format!("x: '{}', c: {}", String::from_utf8_lossy(g), c)).collect()
+                };
+                let mut k = 0usize;
+                let mut bad: Option<String> = None;
+                for (i, t) in tables.iter().enumerate() {
+                    let mut found = None;
+                    for kk in k.max(1)..=lines.len() {
+                        if render(kk) == *t {
+                            found = Some(kk);
+                            break;
+                        }
+                    }
+                    match found {
+                        Some(kk) => k = kk,
+                        None => {
+                            bad = Some(format!("refresh #{} shows {:?} which is not the table of any prefix (>= {} lines) of the stream's {} complete lines", i + 1, t.iter().take(6).collect::<Vec<_>>(), k, lines.len()));
+                            break;
+                        }
+                    }
+                }
+                if bad.is_none() && k != lines.len() {
+                    bad = Some(format!("the last table accounts for {} lines, the stream has {} complete lines", k, lines.len()));
+                }
+                match bad {
+                    None => {
+                        ok_any = true;
+                        break;
+                    }
+                    Some(b) => {
+                        if verdict.is_none() {
+                            verdict = Some(b);
+                        }
+                    }
+                }
+            }
+            if !ok_any {
+                out.violate("c10.wrong_item", format!("aggregate follow run: {}", verdict.unwrap_or_default()), features.clone());
+            }
+            out.probe("mode_exec_aggregate", 1);
+            out.probe("preexisting_tail_with_head", (head && !initial.is_empty() && initial.last() != Some(&b'\n')) as u64);
+            return out;
+        }
         let deliveries = if exec {
             let mut ds = Vec::new();
             for d in follow::stdout_records(&res) {
